@@ -8,7 +8,7 @@ from vf.core.base import Violation
 from vf.core.env import Env
 from vf.core.expr import Undecodable
 from vf.core.gen import Cfg, st_program
-from vf.core.prog import BuildError, build_all, decode, describe_case, ev_bag, fmt, kinds, n_ops
+from vf.core.prog import BuildError, build_all, decode, describe_case, ev_bag, fmt, kinds, lib_nodes, n_ops
 from vf.checks.c02 import is_order_loss
 
 ID = "C16"
@@ -74,6 +74,23 @@ def run_case(case, stats):
             stats.c["build:refused"] += 1
             return
         root = rels[id(prog)]
+        # equal relations may differ in content: the same program over twin leaves (same engines, names and columns;
+        # fewer rows) is built and diagnosed first - nothing learnt about it may leak into the verdict below
+        if int(codec.digest(case)[:2], 16) % 2 == 0:
+            from vf.core.prog import twin_leaves
+
+            tw = env.twin(twin_leaves(leaves))
+            try:
+                rels2 = {}
+                build_all(prog, tw, rels2)
+                Diagnostics.run(rels2[id(prog)])
+                for n in lib_nodes(rels2[id(prog)]):
+                    n.min_rows, n.max_rows
+                stats.c["twin-programs-first"] += 1
+            except Exception:
+                pass
+            finally:
+                tw.close_tables()
         truth = ev_bag(prog, leaves)
         empty_known = truth.det or truth.count is not None
         is_empty = (len(truth.rows) == 0) if truth.det else (truth.count == 0)
